@@ -1,5 +1,6 @@
 pub mod behave;
 pub mod c01;
+pub mod c03;
 pub mod c06;
 pub mod c07;
 pub mod c08;
@@ -14,6 +15,7 @@ use crate::common::{Report, Tier};
 pub fn run(id: &str, tier: Tier) -> Option<Report> {
     Some(match id {
         "C01" => c01::run(tier),
+        "C03" => c03::run(tier),
         "C06" => c06::run(tier),
         "C07" => c07::run(tier),
         "C08" => c08::run(tier),
